@@ -216,17 +216,26 @@ theorem expectedOf_tree_matches_source (logs : List LogEv) (u : Upkeep) :
         | .logTrigger => (logs.filter fun l => logTriggersUpkeep l u).length := by
   cases he : u.expected <;> cases ht : u.type <;> simp [expectedOf, Gen.Src.c20ExpectedLoopTree, he, ht]
 
-/-- `OCR3TransmitLoader.Transmit`: with the two gob encodings succeeding (they cannot fail for a `TransmitEvent`),
-a known key leaves through exit 3 (`report already transmitted`), an unknown one through exit 4 (`return nil`,
-after it has been queued and recorded) -/
+/-- `OCR3TransmitLoader.Transmit` (each of the two `err != nil` tests has its own parameter): with both gob
+encodings succeeding (they cannot fail for a `TransmitEvent`), a known key leaves through exit 3 (`report already
+transmitted`), an unknown one through exit 4 (`return nil`, after it has been queued and recorded); every exit is a
+`return` -/
 theorem transmit_tree_matches_source (s : TLState) (key : String) :
-    (s.transmit key).2 = decide (Gen.Src.c20TransmitTree false (s.transmitted.contains key) = 4) ∧
-    ((s.transmit key).2 = false ↔ Gen.Src.c20TransmitTree false (s.transmitted.contains key) = 3) := by
-  cases h : s.transmitted.contains key
-  · have hm : key ∉ s.transmitted := by simpa using h
-    simp [TLState.transmit, Gen.Src.c20TransmitTree, hm]
-  · have hm : key ∈ s.transmitted := by simpa using h
-    simp [TLState.transmit, Gen.Src.c20TransmitTree, hm]
+    (s.transmit key).2 = decide (Gen.Src.c20TransmitTree false false (s.transmitted.contains key) = 4) ∧
+    ((s.transmit key).2 = false ↔ Gen.Src.c20TransmitTree false false (s.transmitted.contains key) = 3) ∧
+    (∀ a b k, Gen.Src.c20TransmitTreeKind (Gen.Src.c20TransmitTree a b k) = 1) := by
+  refine ⟨?_, ?_, ?_⟩
+  · cases h : s.transmitted.contains key
+    · have hm : key ∉ s.transmitted := by simpa using h
+      simp [TLState.transmit, Gen.Src.c20TransmitTree, hm]
+    · have hm : key ∈ s.transmitted := by simpa using h
+      simp [TLState.transmit, Gen.Src.c20TransmitTree, hm]
+  · cases h : s.transmitted.contains key
+    · have hm : key ∉ s.transmitted := by simpa using h
+      simp [TLState.transmit, Gen.Src.c20TransmitTree, hm]
+    · have hm : key ∈ s.transmitted := by simpa using h
+      simp [TLState.transmit, Gen.Src.c20TransmitTree, hm]
+  · intro a b k; cases a <;> cases b <;> cases k <;> rfl
 
 /-- `isEligible`, one iteration of the descending loop over the eligible blocks (the LAST block is tried first):
 when `block.Cmp(eligibleBlock) >= 0` the iteration ends the function: with what exit 1 returns (`return false`) if
@@ -290,6 +299,94 @@ theorem findMedian_tree_matches_source (v : List Int) :
   · simp [findMedianAndSplitData, Gen.Src.c20MedianTree, h0]
   · by_cases he : v.length % 2 = 0 <;>
       simp [findMedianAndSplitData, Gen.Src.c20MedianTree, Gen.Src.c20MedianEven, h0, he]
+
+
+/-- the `Type` read by `json.Unmarshal(rawEvent, &event)` (`""` when that fails) -/
+def hdrType (hdr : Option (List Leaf)) : String :=
+  match hdr.bind (·.head?) with
+  | some (.str t) => t
+  | _ => ""
+
+/-- `json.Unmarshal(rawEvent, &event)` fails -/
+def hdrBad (hdr : Option (List Leaf)) : Bool :=
+  match hdr.bind (·.head?) with
+  | some (.str _) => false
+  | _ => true
+
+def lastStr (e : Option (List Leaf)) : String :=
+  match e.bind (·.getLast?) with
+  | some (.str x) => x
+  | _ => "?"
+
+/-- the exit the regenerated tree of the loop body takes for an element that is the JSON object `o` -/
+def decodeExit (o : List (String × J)) : Nat :=
+  Gen.Src.c20DecodeEventTree (hdrBad (decodeFields eventSchema o)) (decodeFields configSchema o).isNone
+    (decodeFields genSchema o).isNone (decodeFields logSchema o).isNone (hdrType (decodeFields eventSchema o))
+    (lastStr (decodeFields genSchema o))
+
+/-- `DecodeSimulationPlan`, body of `for idx, rawEvent := range events.Events`, for an element that is a JSON object.
+The four `err != nil` tests are four parameters (header decode, and the typed decode of each arm); the three
+`plan.… = append(…)` statements are marked exits.  The model's loop step takes the exit the regenerated tree takes:
+returns (kind 1) are its errors — exit 1 the header error, 2 / 4 / 6 the typed errors, 8 `unrecognized event` —
+and the marked appends (kind 4) are its three ways of going on to the next element, with the decoded event appended
+to the list of ITS type (`expected` defaulted on the generate arm, whichever way that inner `if` goes). -/
+theorem decodeEvents_tree_matches_source (idx : Nat) (o : List (String × J)) (rest : List J) (acc : Acc) :
+    decodeEvents idx (.obj o :: rest) acc =
+      match Gen.Src.c20DecodeEventTreeKind (decodeExit o), decodeExit o with
+      | 1, 1 => .error (.event idx)
+      | 1, 2 => .error (.typed idx)
+      | 1, 4 => .error (.typed idx)
+      | 1, 6 => .error (.typed idx)
+      | 1, 8 => .error (.unrecognized idx)
+      | 4, 3 => decodeEvents (idx + 1) rest { acc with cfg := acc.cfg ++ [(decodeFields configSchema o).getD []] }
+      | 4, 5 => decodeEvents (idx + 1) rest { acc with gen := acc.gen ++ [defaultExpected ((decodeFields genSchema o).getD [])] }
+      | 4, 7 => decodeEvents (idx + 1) rest { acc with log := acc.log ++ [(decodeFields logSchema o).getD []] }
+      | _, _ => .error (.event idx) := by
+  unfold decodeExit hdrBad hdrType lastStr
+  simp only [decodeEvents]
+  cases hh : decodeFields eventSchema o with
+  | none => simp [Gen.Src.c20DecodeEventTree, Gen.Src.c20DecodeEventTreeKind]
+  | some hdr =>
+    cases hhead : hdr.head? with
+    | none => simp [hhead, Gen.Src.c20DecodeEventTree, Gen.Src.c20DecodeEventTreeKind]
+    | some lf =>
+      cases lf with
+      | str t =>
+        simp only [Option.bind_some, hhead, Gen.Src.c20DecodeEventTree, Bool.false_eq_true, if_false]
+        by_cases h1 : t = "ocr3config"
+        · cases hc : decodeFields configSchema o <;>
+            simp [hc, h1, ocr3ConfigEventType, Gen.Src.c20DecodeEventTreeKind]
+        · by_cases h2 : t = "generateUpkeeps"
+          · cases hg : decodeFields genSchema o <;>
+              simp [hg, h2, generateUpkeepEventType, ocr3ConfigEventType, Gen.Src.c20DecodeEventTreeKind]
+          · by_cases h3 : t = "logTrigger"
+            · cases hl : decodeFields logSchema o <;>
+                simp [hl, h3, logTriggerEventType, generateUpkeepEventType, ocr3ConfigEventType, Gen.Src.c20DecodeEventTreeKind]
+            · simp [h1, h2, h3, logTriggerEventType, generateUpkeepEventType, ocr3ConfigEventType, Gen.Src.c20DecodeEventTreeKind]
+      | null => simp [hhead, Gen.Src.c20DecodeEventTree, Gen.Src.c20DecodeEventTreeKind]
+      | int n => simp [hhead, Gen.Src.c20DecodeEventTree, Gen.Src.c20DecodeEventTreeKind]
+      | dur n => simp [hhead, Gen.Src.c20DecodeEventTree, Gen.Src.c20DecodeEventTreeKind]
+      | flt n => simp [hhead, Gen.Src.c20DecodeEventTree, Gen.Src.c20DecodeEventTreeKind]
+
+/-- **How the tied exits leave their block** (`…TreeKind`: 1 return, 2 continue, 3 break).  The models rely on it:
+`expectedPerforms` goes on with the NEXT upkeep after an unexpected one (`continue`, not `break` or `return`);
+`logTriggersUpkeep`, `isEligible` and `findMedianAndSplitData` END at their exits (`return`); of the two `return`s of
+`findMedianAndSplitData` neither hands out a literal `nil` slice (both halves are slices of the input). -/
+theorem tree_exit_kinds_match_source :
+    Gen.Src.c20ExpectedLoopTreeKind 1 = 2 ∧
+    (∀ c v t a, Gen.Src.c20LogTriggersTreeKind (Gen.Src.c20LogTriggersTree c v t a) = 1) ∧
+    Gen.Src.c20LogEligibleLoopTreeKind 1 = 1 ∧
+    Gen.Src.c20IsEligibleLoopTreeKind 1 = 1 ∧ Gen.Src.c20IsEligibleLoopTreeKind 2 = 1 ∧
+    Gen.Src.c20PerformedAtTreeKind 1 = 1 ∧
+    (∀ n m, Gen.Src.c20MedianTreeKind (Gen.Src.c20MedianTree n m) = 1) ∧
+    Gen.Src.c20MedianTreeNil2 1 = false ∧ Gen.Src.c20MedianTreeNil3 1 = false := by
+  refine ⟨rfl, ?_, rfl, rfl, rfl, rfl, ?_, rfl, rfl⟩
+  · intro c v t a
+    simp only [Gen.Src.c20LogTriggersTree]
+    split <;> (try split) <;> rfl
+  · intro n m
+    simp only [Gen.Src.c20MedianTree]
+    split <;> (try split) <;> rfl
 
 
 end AutoVerif.C20
